@@ -167,6 +167,7 @@ func (p c18Path) compatible(m int64) bool {
 
 func c18(c *Ctx) {
 	r := c.R
+	r.Explain = "Every feasible path of antispoof_ingress is enumerated by path-sensitive abstract interpretation of clang's AST; the branch conditions a path went through are kept as atoms over the effective mode, binding presence, validity flags, the source==bound comparison (per byte for IPv6), the allowed-range lookup, the ethertype and the header-length tests, together with the path's packet-length facts.  For every (mode, ethertype) pair compatible with a path the verdict is compared with the table the property states; a frame may be forwarded unvalidated only if the path's facts imply that its IP header is incomplete.  On the Go side the four control-plane entry points must make their map call on every successful return unless the map is nil, store the validity flag with the address and take the mode from the manager.  LPM-trie semantics and concurrent map updates are not decided; layouts, constants and byte order are C06's."
 	r.Rule("C18.table", "the decision table extracted from antispoof_ingress (every path, branch conditions as atoms over mode, binding, validity flags, source==bound, in-range, ethertype, header completeness) equals the table the property states: strict => forward iff source == bound address; log-only => forward; loose => forward iff in an allowed range; disabled / non-IP => forward; a frame is passed unvalidated only if its IP header really is incomplete", 20)
 	r.Rule("C18.control", "AddBinding/AddBindingV6/RemoveBinding/SetMode reach their map update whenever the map is loaded, guarded by nothing but argument validation; a binding's validity flag is set together with its address and its mode comes from the manager's mode", 6)
 	r.Rule("C18.model", "antispoof_ingress is analysed completely", 1)
